@@ -40,6 +40,7 @@ import (
 	"github.com/scionproto/scion/pkg/drkey/generic"
 	"github.com/scionproto/scion/pkg/drkey/specific"
 	"github.com/scionproto/scion/pkg/slayers"
+	"github.com/scionproto/scion/pkg/spao"
 	"github.com/scionproto/scion/private/drkey/drkeyutil"
 	"github.com/scionproto/scion/private/storage/db"
 	l1sqlite "github.com/scionproto/scion/private/storage/drkey/level1/sqlite"
@@ -706,6 +707,45 @@ func main() {
 		e.Op(fmt.Sprintf("ep %d %d", val, dur), ans, tag)
 	}
 
+	// --- relative / absolute timestamps (pkg/spao/timestamp.go)
+	for i := 0; i < e.N(3000, 60000); i++ {
+		b := uint32(r.Range(0, 1<<32-1))
+		dur := int64(r.Range(1, 400000))
+		off := int64(r.Range(0, int(dur*1e9)))
+		switch r.Intn(10) {
+		case 0: // around the 2^48 ns limit
+			off = 1<<48 + int64(r.Range(-3, 3))
+		case 1: // before the epoch
+			off = -int64(r.Range(1, 10e9))
+		case 2:
+			off = int64(r.Range(0, 5))
+		case 3:
+			off = int64(r.Range(0, 1<<49))
+		}
+		tNs := int64(b)*1e9 + off
+		ep := drkey.NewEpoch(b, b+uint32(dur))
+		t := time.Unix(tNs/1e9, tNs%1e9)
+		if tNs < 0 {
+			t = time.Unix(0, tNs)
+		}
+		rel, err := spao.RelativeTimestamp(ep, t)
+		ans, tag := "err", "rel/toolarge"
+		if err == nil {
+			ans, tag = fmt.Sprintf("ok %d", rel), "rel/ok"
+			if off < 0 {
+				tag = "rel/before-epoch"
+			}
+			if back := spao.AbsoluteTimestamp(ep, rel); !back.Equal(t) {
+				bad(e, "timestamp-roundtrip", "AbsoluteTimestamp(RelativeTimestamp(t)) != t",
+					map[string]any{"epoch_begin": b, "t_ns": tNs})
+			}
+			if off >= 0 && rel >= 1<<48 {
+				bad(e, "timestamp-roundtrip", "relative timestamp does not fit 48 bits", map[string]any{"epoch_begin": b, "t_ns": tNs})
+			}
+		}
+		e.Op(fmt.Sprintf("rel %d %d", b, tNs), ans, tag)
+	}
+
 	// --- acceptance window
 	nWin := e.N(20000, 400000)
 	for i := 0; i < nWin; i++ {
@@ -759,13 +799,16 @@ func main() {
 		var ts uint64
 		if dur > 0 {
 			idx := (tNs / 1e9) / dur
-			k := int64(r.Range(-1, 1))
+			k := int64([]int{0, 0, -1, 1}[r.Intn(4)])
 			begin := int64(uint32((idx + k) * dur))
 			end := int64(uint32(begin) + uint32(dur))
 			targets := []int64{tNs - aw/2, tNs + aw/2, end*1e9 + 5e9, begin * 1e9, tNs, end * 1e9, end*1e9 - 5e9}
 			abs := targets[r.Intn(len(targets))] + int64(r.Range(-2, 2))
 			if r.Chance(25) {
 				abs += int64(r.Range(-10e9, 10e9))
+			}
+			if r.Chance(30) && aw > 1 { // anywhere inside the acceptance window
+				abs = tNs - aw/2 + int64(r.Range(0, int(aw/2)*2))
 			}
 			rel := abs - begin*1e9
 			if rel < 0 && r.Chance(70) {
@@ -796,6 +839,21 @@ func main() {
 			ans, tag = "panic", "~win/panic"
 		case err != nil:
 			ans, tag = "nokey", "win/nokey"
+			// no key although one of the three epochs around t (computed here from the documented
+			// epoch grid, away from the uint32 wrap) qualifies: the implementation contradicts its own
+			// selection rule — reported so that a broken tie comes with a concrete input
+			if idx := (tNs / 1e9) / dur; dur > 0 && idx >= 1 && (idx+2)*dur < 1<<32 && ts < 1<<62 {
+				for k := int64(-1); k <= 1; k++ {
+					b, en := (idx+k)*dur, (idx+k+1)*dur
+					abs := new(big.Int).Add(new(big.Int).Mul(big.NewInt(b), big.NewInt(1e9)), big.NewInt(int64(ts)))
+					hi := new(big.Int).Add(new(big.Int).Mul(big.NewInt(en), big.NewInt(1e9)), big.NewInt(int64(drkey.GRACE_PERIOD)))
+					if abs.Cmp(hi) <= 0 && abs.Cmp(big.NewInt(tNs-aw/2)) >= 0 && abs.Cmp(big.NewInt(tNs+aw/2)) <= 0 {
+						bad(e, "window-miss", "no key selected although the timestamp lies in the acceptance window and in an epoch's validity plus grace period",
+							map[string]any{"t_ns": tNs, "epoch_duration_ns": durNs, "acceptance_window_ns": aw, "timestamp": ts, "epoch_begin": b, "epoch_end": en})
+						break
+					}
+				}
+			}
 		default:
 			b, en := uint32(k.Epoch.NotBefore.Unix()), uint32(k.Epoch.NotAfter.Unix())
 			ans = fmt.Sprintf("key %d %d", b, en)
